@@ -20,15 +20,15 @@ import (
 // matching array (nor "unknown") is in W*(fn).
 
 type regionAnalysis struct {
-	P      *Program
-	pts    map[ssa.Value]map[string]bool
-	flows  map[string]map[string]bool // contents stored into field:X / cell
-	writes map[*ssa.Function]map[string]bool
-	total  map[*ssa.Function]map[string]bool
-	calls  map[*ssa.Function][]*ssa.Function
-	fvBind map[*ssa.FreeVar][]ssa.Value
-	rets   map[*ssa.Function][]ssa.Value
-	args   map[*ssa.Parameter][]ssa.Value
+	P       *Program
+	pts     map[ssa.Value]map[string]bool
+	flows   map[string]map[string]bool // contents stored into field:X / cell
+	writes  map[*ssa.Function]map[string]bool
+	total   map[*ssa.Function]map[string]bool
+	calls   map[*ssa.Function][]*ssa.Function
+	fvBind  map[*ssa.FreeVar][]ssa.Value
+	rets    map[*ssa.Function][]ssa.Value
+	args    map[*ssa.Parameter][]ssa.Value
 	changed bool
 }
 
